@@ -23,9 +23,10 @@ def parseRow : Sexp → Row
 def parseTable : Sexp → Table
   | .list (.atom "t" :: .list (.atom "types" :: tys) :: chunks) =>
     { types := tys.map (fun t => match t with | .atom a => tyOfTag a | _ => .null),
-      chunks := chunks.map (fun c => match c with
-        | .list (.atom "c" :: rows) => rows.map parseRow
-        | _ => []) }
+      chunks := chunks.filterMap (fun c => match c with
+        | .list (.atom "c" :: rows) => some (rows.map parseRow)
+        | _ => none),
+      ordered := !(chunks.any (fun c => c == .list [.atom "unordered"])) }
   | _ => { types := [], chunks := [] }
 
 def renderRows (rows : List Row) : String := "".intercalate (rows.map rowCanon)
